@@ -124,12 +124,18 @@ fn cap_of(c: u128) -> usize {
 }
 
 pub fn run_blocking(sh: bool, f: &Option<DltFilterConfig>, cap: usize, sched: &[u64], data: &[u8]) -> (Vec<Obs>, bool) {
+    run_blocking_mml(sh, f, cap, 0, sched, data)
+}
+
+pub fn run_blocking_mml(sh: bool, f: &Option<DltFilterConfig>, cap: usize, mml: usize, sched: &[u64], data: &[u8]) -> (Vec<Obs>, bool) {
     let pf: Option<ProcessedDltFilterConfig> = f.as_ref().map(|c| c.into());
     let src = SchedSource { data: data.to_vec(), pos: 0, sched: sched.iter().cloned().collect() };
     let mut out = vec![];
     let limit = data.len() + 1;
     let mut reader = match catch_unwind(AssertUnwindSafe(|| {
-        if cap == 0 {
+        if mml != 0 {
+            DltMessageReader::with_capacity(cap.max(mml), mml, src, sh)
+        } else if cap == 0 {
             DltMessageReader::new(src, sh)
         } else {
             DltMessageReader::with_capacity(cap, MESSAGE_MAX_LEN, src, sh)
@@ -153,13 +159,15 @@ pub fn run_blocking(sh: bool, f: &Option<DltFilterConfig>, cap: usize, sched: &[
     (out, false)
 }
 
-pub fn run_async(sh: bool, f: &Option<DltFilterConfig>, cap: usize, sched: &[u64], data: &[u8]) -> (Vec<Obs>, bool) {
+pub fn run_async(sh: bool, f: &Option<DltFilterConfig>, cap: usize, mml: usize, sched: &[u64], data: &[u8]) -> (Vec<Obs>, bool) {
     let pf: Option<ProcessedDltFilterConfig> = f.as_ref().map(|c| c.into());
     let src = SchedSource { data: data.to_vec(), pos: 0, sched: sched.iter().cloned().collect() };
     let mut out = vec![];
     let limit = data.len() + 1;
     let mut reader = match catch_unwind(AssertUnwindSafe(|| {
-        if cap == 0 {
+        if mml != 0 {
+            DltStreamReader::with_capacity(cap.max(mml), mml, src, sh)
+        } else if cap == 0 {
             DltStreamReader::new(src, sh)
         } else {
             DltStreamReader::with_capacity(cap, MESSAGE_MAX_LEN, src, sh)
@@ -231,15 +239,16 @@ fn slicing(sh: bool, f: &Option<DltFilterConfig>, data: &[u8]) -> Vec<Obs> {
     }
 }
 
-fn read_case(toks: &[Tok]) -> (bool, Option<DltFilterConfig>, usize, Vec<u64>, Vec<u8>) {
+fn read_case(toks: &[Tok]) -> (bool, Option<DltFilterConfig>, usize, usize, Vec<u64>, Vec<u8>) {
     let mut r = R::new(toks);
     let sh = r.bool();
     let f = r.opt_filter();
     let cap = cap_of(r.n());
+    let mml = r.n() as usize; // 0 = the default 16 + 65535
     let n = r.n();
     let sched: Vec<u64> = (0..n).map(|_| r.n() as u64).collect();
     let data = r.b();
-    (sh, f, cap, sched, data)
+    (sh, f, cap, mml, sched, data)
 }
 
 fn describe(l: &[Obs]) -> String {
@@ -248,8 +257,8 @@ fn describe(l: &[Obs]) -> String {
 
 /// 40 READ
 fn op_read(toks: &[Tok], prop: &str) -> Outcome {
-    let (sh, f, cap, sched, data) = read_case(toks);
-    let (obs, fin) = run_blocking(sh, &f, cap, &sched, &data);
+    let (sh, f, cap, mml, sched, data) = read_case(toks);
+    let (obs, fin) = run_blocking_mml(sh, &f, cap, mml, &sched, &data);
     let mut w = W::new();
     w_obs_list(&mut w, &obs, fin);
     let mut oracle = vec![];
@@ -268,7 +277,7 @@ fn op_read(toks: &[Tok], prop: &str) -> Outcome {
             ));
         }
         // fragmentation independence on the implementation itself
-        let (plain, _) = run_blocking(sh, &f, cap, &[], &data);
+        let (plain, _) = run_blocking_mml(sh, &f, cap, mml, &[], &data);
         if plain != obs {
             oracle.push(("fragmentation_independent".into(), format!("with this schedule {} but with whole reads {}", describe(&obs), describe(&plain))));
         }
@@ -278,8 +287,8 @@ fn op_read(toks: &[Tok], prop: &str) -> Outcome {
 
 /// 41 ASYNC
 fn op_async(toks: &[Tok], prop: &str) -> Outcome {
-    let (sh, f, cap, sched, data) = read_case(toks);
-    let (obs, fin) = run_async(sh, &f, cap, &sched, &data);
+    let (sh, f, cap, mml, sched, data) = read_case(toks);
+    let (obs, fin) = run_async(sh, &f, cap, mml, &sched, &data);
     let mut w = W::new();
     w_obs_list(&mut w, &obs, fin);
     let mut oracle = vec![];
@@ -290,7 +299,7 @@ fn op_async(toks: &[Tok], prop: &str) -> Outcome {
         if !fin {
             oracle.push(("terminates".into(), "read_message did not report end of stream within len+1 calls".into()));
         }
-        let (blocking, bfin) = run_blocking(sh, &f, cap, &[], &data);
+        let (blocking, bfin) = run_blocking_mml(sh, &f, cap, mml, &[], &data);
         // same messages, then the same kind of terminal outcome (error class)
         let same = obs.len() == blocking.len()
             && bfin == fin
